@@ -426,6 +426,11 @@ var corpus = map[string][]string{
 		"newmsg 1; newenum; newenumsig 0; newstd 4; append 0 0; append 0 1; setminsize 0 4",
 		"newmsg 1; newenum; setminsize 0 2; newenumsig 0; newenumsig 0; newstd 3; append 0 0; append 0 1; append 0 2; addvalue 0 4",
 		"newmsg 1; newenum; setminsize 0 2; newenumsig 0; newenumsig 0; newstd 3; append 0 0; append 0 1; append 0 2; addvalue 0 1; updateindex 0 4",
+		// finding "ctor" (coq/C01/Refuted.v ctor_ops, ctor_refuse_ops): the bit count of a message wraps
+		"newmsg -1152921504606846977; newstd 1; insert 0 0 100",
+		"newmsg 2305843009213693952; newstd 1; append 0 0",
+		"newmsg 1152921504606846975; newstd 1; insert 0 0 9223372036854775799; newstd 2; append 0 1",
+		"newmux 2 9223372036854775807; newmux 2 9223372036854775743; newmux 2 9223372036854775742",
 		// a message sent on a CAN 2.0A bus: sizes above 8 bytes are refused and change nothing (the payload
 		// stays full), smaller ones follow the layout
 		"newmsgbus 8; newstd 32; newstd 32; newstd 8; newstd 8; append 0 0; append 0 1; resizebus 0 16 8; append 0 2; insert 0 3 80; shr 0 1 5; resizebus 0 9 8; insert 0 2 64; resizebus 0 4 8; remove 0 1; resizebus 0 4 8; resizebus 0 8 8; insert 0 1 32",
